@@ -12,6 +12,7 @@ func Run(bytecode *bytecode.Bytecode, searchText string) Matches {
 	for _, command := range bytecode.Bytecode {
 		reader := files.ReaderFromString(searchText)
 		result = append(result, search(&command, "text", reader, NOTHING)...)
+		reader.Close()
 	}
 	return result
 }
@@ -53,6 +54,8 @@ func RunFiles(bytecode *bytecode.Bytecode, filenames []string, mode ReplaceMode,
 					reader = files.ReaderFromFile(actualFilename)
 				}
 				foundMatches := search(&command, actualFilename, reader, actualMode)
+				// whoever opens the reader closes it, for find commands as well
+				reader.Close()
 				result = append(result, foundMatches...)
 				if processFilenames && len(foundMatches) != 0 && len(foundMatches[0].Replacement.GetValueOrDefault("")) != 0 {
 					err := os.Rename(actualFilename, foundMatches[0].Replacement.GetValueOrDefault(""))
